@@ -53,6 +53,8 @@ _T = [
     ("pure", r"(std|core)::option::Option::<&(mut )?T>::(copied|cloned)$|std::prelude::v1::(Some|None|Ok|Err)$|(std|core)::(option::Option|result::Result)::(Some|None|Ok|Err)$", "Option<&T>::copied/cloned; enum constructors used as functions"),
     ("pure", r"std::boxed::box_assume_init_into_vec_unsafe$|std::boxed::Box::<T(, A)?>::new_uninit", "internals of std's vec![] macro expansion (array literal moved into a Vec)"),
     ("pure", r"(std|core)::option::Option::<T>::|(std|core)::result::Result::<T, E>::|<std::option::Option<T> as |<std::result::Result<T, \w+> as ", "Option/Result combinators"),
+    ("pure", r"(std|core)::option::Option::<.*>::(transpose|flatten|unzip|copied|cloned)$|(std|core)::result::Result::<.*>::(transpose|flatten|copied|cloned)$", "Option/Result combinators on nested types"),
+    ("pure", r"core::bool::<impl bool>::(then|then_some)$", "bool::then / then_some: calls the closure or wraps the value"),
     ("pure", r"(std|core)::clone::|<.* as (std|core)::clone::Clone>::", "Clone"),
     ("pure", r"(std|core)::cmp::|<.* as (std|core)::cmp::(PartialEq|PartialOrd|Ord|Eq)(<.*>)?>::", "comparisons"),
     ("pure", r"(std|core)::convert::|<.* as (std|core)::convert::(From|Into|TryFrom|TryInto|AsRef|AsMut)(<.*>)?>::", "conversions"),
